@@ -98,8 +98,10 @@ def ifsoup_accounted(rng):
     validity (used in the seed-dependent slice only: the fixed sequence must not change)"""
     parts = []; stack = []; bad = False
     for _ in range(rng.randint(1, 40)):
-        c = rng.choice(['#if ZqA', '#if ZqB', '#else', '#endif', '#assert ZqA', '#unassert ZqA', '-- comment', ''])
+        c = rng.choice(['#if ZqA', '#if ZqB', '#else', '#endif', '#assert ZqA', '#unassert ZqA', '-- comment', '', '#elseif ZqA', '#elseif ZqB'])
         if c.startswith('#if'): stack.append(False)
+        elif c.startswith('#elseif'):
+            if not stack or stack[-1]: bad = True        # #elseif needs an open #if whose #else has not been seen
         elif c == '#else':
             if not stack or stack[-1]: bad = True
             else: stack[-1] = True
